@@ -146,10 +146,11 @@ def depth(c):
 # generator
 
 class Gen:
-    def __init__(self, rng, exec_ok=True, faults=0.08, sub_traps=False):
+    def __init__(self, rng, exec_ok=True, faults=0.08, exit_ok=True):
         self.rng = rng
         self.tag = 0
         self.exec_ok = exec_ok
+        self.exit_ok = exit_ok   # False: `exit` only inside subshells (bodies that are iterated)
         self.faults = faults
         self.nfun = 0
         self.fun_pure = []       # function i sets no trap / does not exec (safe to call anywhere)
@@ -173,7 +174,7 @@ class Gen:
         if r < 0.56 + self.faults:
             return rng.choice([("PF",), ("PN",), ("AF",), ("AN",), ("OF",), ("ON",), ("RF",), ("SM",), ("N",)])
         if r < 0.72: return mk_sub(self.lst(dict(ctx, sub=True, d=ctx["d"] + 2)))  # ( … ) incl. (exit n)
-        if r < 0.80: return ("X", rng.choice([None, self.status(), self.status()]))
+        if r < 0.80 and (self.exit_ok or ctx["sub"]): return ("X", rng.choice([None, self.status(), self.status()]))
         if r < 0.85: return ("R", rng.choice([None, self.status()]))
         if r < 0.88: return ("SE", rng.random() < 0.7)
         if r < 0.90: return ("ST", rng.random() < 0.7)
@@ -217,7 +218,7 @@ class Gen:
         if r < 0.87: return ("L", rng.choice([0, 1, 2, 2, 3]), self.lst(c2))
         if r < 0.91:
             # while: either the condition fails at once, or the body ends in an unconditional exit
-            if rng.random() < 0.4:
+            if rng.random() < 0.4 or not (self.exit_ok or ctx["sub"]):
                 return ("W", ("P", rng.choice([("F",), ("N",), ("U", ("P", ("X", 3)))])), self.lst(c2))
             body = self.lst(c2, rng.randrange(0, 2)) if rng.random() < 0.7 else None
             last = ("P", ("X", rng.choice([None, self.status()])))
